@@ -1,0 +1,18 @@
+//! Verification-only hook (compiled only with `--cfg libp2p_verif`).
+//!
+//! Forwarding constructor: builds a [`Transport`](crate::Transport) around an arbitrary
+//! implementation of the (already public, doc-hidden) [`Resolver`](crate::Resolver) trait so that
+//! resolver behaviour can be scripted. Nothing is re-implemented here.
+use std::sync::Arc;
+
+use parking_lot::Mutex;
+
+impl<T, R> crate::Transport<T, R> {
+    /// Creates a [`Transport`](crate::Transport) from an inner transport and a custom resolver.
+    pub fn verif_with_resolver(inner: T, resolver: R) -> Self {
+        crate::Transport {
+            inner: Arc::new(Mutex::new(inner)),
+            resolver,
+        }
+    }
+}
